@@ -49,7 +49,11 @@ impl<'de> serde::Deserializer<'de> for TableDeserializer {
         V: serde::de::Visitor<'de>,
     {
         if serde_spanned::__unstable::is_spanned(name, fields) {
-            if let Some(span) = self.span.clone() {
+            let span = self
+                .span
+                .clone()
+                .or_else(|| super::span_of_children(&self.items));
+            if let Some(span) = span {
                 return visitor.visit_map(super::SpannedDeserializer::new(self, span));
             }
         }
